@@ -30,9 +30,16 @@ inductive Imported where
   | err (e : Err)
   | ext (x : Nat)
 
+/-- the states the per-function verdicts are given for: the closed set `explore` found (the one
+`resolver_sound` is about), or, when a call fails, everything reachable by the calls that return -/
+def statesOf (G : Facts) (σ : State) : List State :=
+  match explore G exploreBound [σ] [σ] with
+  | .closed seen => seen
+  | _ => reachStates G exploreBound [σ] [σ]
+
 def importedOf (G : Facts) (e : Nat) : Imported × List State :=
   match importEntry G e with
-  | .ok (σ, none) => (.ok σ, reachStates G exploreBound [σ] [σ])
+  | .ok (σ, none) => (.ok σ, statesOf G σ)
   | .ok (_, some x) => (.ext x, [])
   | .error err => (.err err, [])
 
@@ -66,7 +73,8 @@ def ev? (j : Json) : Option Ev := do
   | "leave" => return .leave
   | "ext" => return .ext (← n 1)
   | "tryBegin" => return .tryBegin
-  | "tryExcept" => return .tryExcept
+  | "tryExcept" => return .tryExcept (← n 1)
+  | "alias" => return .alias (← n 1) (← n 2) (← natList? (a.getD 3 Json.null))
   | "tryEnd" => return .tryEnd
   | "gbind" => return .gbind (← n 1)
   | "gunbind" => return .gunbind (← n 1)
@@ -81,15 +89,37 @@ def module? (j : Json) : Option Lena.C20.Module := do
   let parent := nat? (getD j "parent")
   let all := natList? (getD j "all_ids")
   let funcs ← (← arr? (getD j "funcs")).toList.mapM func?
-  return ⟨← nat? (getD j "name_id"), parent, ← nat? (getD j "short_id"), all, ← evs? (getD j "evs"),
+  return ⟨← nat? (getD j "name_id"), parent, ← nat? (getD j "short_id"), all,
+    (bool? (getD j "all_dynamic")).getD false, ← evs? (getD j "evs"),
     funcs.filter (fun f => !f.evs.isEmpty)⟩
+
+def ref? (j : Json) : Option ClassRef := do
+  let a ← arr? j
+  match ← str? (a.getD 0 Json.null) with
+  | "cls" => return .cls (← nat? (a.getD 1 Json.null))
+  | "builtin" => return .builtin (← nat? (a.getD 1 Json.null))
+  | _ => return .unknown
+
+def class? (j : Json) : Option ClassFact := do
+  return ⟨← nat? (getD j "mod_id"), ← nat? (getD j "name_id"), ← nat? (getD j "line"),
+    ← (← arr? (getD j "base_ids")).toList.mapM ref?, (bool? (getD j "is_lena_exc")).getD false⟩
+
+def raise? (j : Json) : Option RaiseFact := do
+  return ⟨← nat? (getD j "mod_id"), ← nat? (getD j "fn_id"), ← nat? (getD j "line"), ← ref? (getD j "what_ids"),
+    (bool? (getD j "protocol")).getD false⟩
+
+def unbound? (j : Json) : Option UnboundFact := do
+  return ⟨← nat? (getD j "mod_id"), ← nat? (getD j "fn_id"), ← nat? (getD j "var_id"),
+    (bool? (getD j "audited")).getD false⟩
 
 def tree? (j : Json) : Option Tree := do
   let fj := getD j "facts"
   let mods ← (← arr? (getD fj "modules")).toList.mapM module?
   let F : Facts := ⟨mods, ← natList? (getD fj "entries"), ← nat? (getD fj "n_builtins"),
     ← natList? (getD fj "private"), ← nat? (getD fj "n_bindable"), ← nat? (getD fj "slot_bits"),
-    ← nat? (getD fj "venv_env"), ← natList? (getD fj "envs")⟩
+    ← nat? (getD fj "venv_env"), ← natList? (getD fj "envs"),
+    ← (← arr? (getD fj "classes")).toList.mapM class?, nat? (getD fj "exc_root"),
+    ← (← arr? (getD fj "raises")).toList.mapM raise?, ← (← arr? (getD fj "maybe_unbound")).toList.mapM unbound?⟩
   let names ← (← arr? (getD fj "names")).toList.mapM str?
   let ext ← (← arr? (getD fj "ext")).toList.mapM str?
   return ⟨F, names.toArray, ext.toArray⟩
@@ -147,7 +177,12 @@ def handle (j : Json) : Json :=
     Json.mkObj [("hash", Gen.sourceHash), ("modules", ofList (fun M => Json.str (nameStr T M.name)) F.mods),
       ("entries", ofList (fun e => Json.str (modStr T e)) F.entries), ("layout", F.layoutOk),
       ("ext", ofList Json.str T.ext.toList), ("envs", ofList ofNat F.envs),
-      ("resolvesAllEnvs", resolvesAllEnvs F), ("closuresOk", closuresOk F)]
+      ("resolvesAllEnvs", resolvesAllEnvs F), ("closuresOk", closuresOk F),
+      ("exceptionsOk", exceptionsOk F), ("localsOk", localsOk F),
+      ("lenaExceptions", Json.mkObj ((zipIdx F.classes 0).filterMap (fun (i, C) =>
+        if C.isLenaExc then some (nameStr T C.name, Json.bool (match F.excRoot with
+          | some r => derivesB F F.classes.length i r | none => false)) else none))),
+      ("allDynamic", ofList (fun M => Json.str (nameStr T M.name)) (F.mods.filter (·.allDynamic)))]
   | some "entry" =>
     match entryOf j with
     | none => err "unknown entry"
@@ -160,6 +195,9 @@ def handle (j : Json) : Json :=
         ("loaded", Json.mkObj (loaded.map (fun m => (modStr T m, Json.str (match σ.statusOf m with | .done => "done" | .running => "running" | .absent => "absent" | .failed => "failed"))))),
         ("ns", Json.mkObj (loaded.map (fun m => (modStr T m, Json.mkObj ((boundIn F σ m).map (fun (n, v) => (nameStr T n, Json.str (valStr T v)))))))),
         ("exported", exportedB F e σ),
+        ("starNames", ofList (fun n => Json.str (nameStr T n)) (match F.modOf e with
+          | some M => M.evs.flatMap (fun ev => match ev with | .star p => starNames F σ p | _ => [])
+          | none => [])),
         ("states", ofNat states.length),
         ("explore", Json.str (match explore F exploreBound [σ] [σ] with
           | .closed seen => s!"closed:{seen.length}"
@@ -183,14 +221,22 @@ def handle (j : Json) : Json :=
       match (str? (getD j "m")).bind (modIdOf T), str? (getD j "f"), nat? (getD j "line") with
       | some m, some q, some line =>
         match (F.modOf m).bind (fun M => M.funcs.find? (fun f => nameStr T f.name == q && f.line == line)) with
-        | none => Json.mkObj [("r", Json.arr #[]), ("missing", true)]
+        | none => Json.mkObj [("r", Json.arr #[]), ("missing", true),
+            ("badRaises", ofList (fun (r : RaiseFact) => ofNat r.line)
+              (F.raises.filter (fun r => r.mod == m && nameStr T r.fn == q && !raiseOkB F r))),
+            ("unaudited", ofList (fun (u : UnboundFact) => Json.str (nameStr T u.var))
+              (F.maybeUnbound.filter (fun u => u.mod == m && nameStr T u.fn == q && !u.audited)))]
         | some f =>
           Json.mkObj [("r", ofList (fun s =>
             match s.statusOf m with
             | .done => match callFn F m f s with
               | .ok _ => Json.str "ok"
               | .error e => errJson T e
-            | _ => Json.str "not-callable") states)]
+            | _ => Json.str "not-callable") states),
+            ("badRaises", ofList (fun (r : RaiseFact) => ofNat r.line)
+              (F.raises.filter (fun r => r.mod == m && nameStr T r.fn == q && !raiseOkB F r))),
+            ("unaudited", ofList (fun (u : UnboundFact) => Json.str (nameStr T u.var))
+              (F.maybeUnbound.filter (fun u => u.mod == m && nameStr T u.fn == q && !u.audited)))]
       | _, _, _ => err "bad call args"
   | some "findings" =>
     let T := (tree? (getD j "tree")).getD repo
